@@ -44,6 +44,9 @@ def _diff_reads(value):
 
 
 def run(ctx):
+    from .C09 import ang2dir_rule
+
+    ang2dir_rule(ctx, rule="R08.8")  # the search direction built from `angles=` (shared with C09)
     from .C09 import preprocessing
 
     preprocessing(ctx, rule="R08.7")  # masked / no-data values must reach the kernels as NaN (their skip value): shared with C09
